@@ -111,23 +111,31 @@ func (r rel) String() string {
 	return strings.Join(x, " | ")
 }
 
-// splitArch: the model's own reading of a Debian architecture name or wildcard as (os, cpu): "cpu" = linux-cpu,
-// "os-cpu", "any" = any-any.
-func splitArch(name string) (os, cpu string) {
+// splitArch: the model's own reading of a Debian architecture name or wildcard as the triple (abi, os, cpu):
+// "cpu" = gnu-linux-cpu; "os-cpu" = gnu-os-cpu when both parts are concrete, any-os-cpu when one of them is "any"
+// (a two-part wildcard leaves the ABI open); "abi-os-cpu" as written; "any" = any-any-any.
+func splitArch(name string) (abi, os, cpu string) {
 	if name == "any" {
-		return "any", "any"
+		return "any", "any", "any"
 	}
-	if k := strings.IndexByte(name, '-'); k >= 0 {
-		return name[:k], name[k+1:]
+	parts := strings.SplitN(name, "-", 3)
+	switch len(parts) {
+	case 1:
+		return "gnu", "linux", parts[0]
+	case 2:
+		if parts[0] == "any" || parts[1] == "any" {
+			return "any", parts[0], parts[1]
+		}
+		return "gnu", parts[0], parts[1]
 	}
-	return "linux", name
+	return parts[0], parts[1], parts[2]
 }
 
 // entryMatches: one architecture-list entry (concrete name or wildcard) against a concrete build architecture.
 func entryMatches(entry, buildArch string) bool {
-	eo, ec := splitArch(entry)
-	bo, bc := splitArch(buildArch)
-	return (eo == "any" || eo == bo) && (ec == "any" || ec == bc)
+	ea, eo, ec := splitArch(entry)
+	ba, bo, bc := splitArch(buildArch)
+	return (ea == "any" || ea == ba) && (eo == "any" || eo == bo) && (ec == "any" || ec == bc)
 }
 
 // admits: a restriction list admits the architecture iff (some entry matches it) != (the list is negated).
@@ -181,6 +189,9 @@ var archLists = []struct {
 	{false, []string{"any-i386", "any-arm64"}}, {true, []string{"any-i386", "any-arm64"}},
 	{false, []string{"kfreebsd-amd64", "hurd-i386"}}, {true, []string{"kfreebsd-amd64"}}, {false, []string{"kfreebsd-amd64", "amd64"}},
 	{false, []string{"any"}},
+	// three-part names: ABI given explicitly / left open
+	{false, []string{"musl-linux-amd64"}}, {true, []string{"musl-linux-amd64"}}, {false, []string{"musl-linux-any"}}, {true, []string{"gnu-linux-any", "kfreebsd-any"}},
+	{false, []string{"linux-amd64"}}, {false, []string{"gnu-any-any"}},
 }
 
 const (
@@ -422,7 +433,7 @@ const (
 
 // archNameOK: a build architecture the model can read: "cpu" or "os-cpu", package-name characters only.
 func archNameOK(s string) bool {
-	if s == "" || len(s) > 40 || strings.Count(s, "-") > 1 || strings.HasPrefix(s, "-") || strings.HasSuffix(s, "-") {
+	if s == "" || len(s) > 40 || strings.Count(s, "-") > 2 || strings.HasPrefix(s, "-") || strings.HasSuffix(s, "-") {
 		return false
 	}
 	for i := 0; i < len(s); i++ {
@@ -1202,7 +1213,7 @@ func clone(b In) In {
 	return in
 }
 
-var archs = []string{"amd64", "i386", "kfreebsd-amd64"}
+var archs = []string{"amd64", "i386", "kfreebsd-amd64", "musl-linux-amd64"} // the last two: a non-linux OS, a non-gnu ABI
 
 var edgeClass = func() []string {
 	var x []string
@@ -1513,8 +1524,8 @@ func Run(r *mc.Run) {
 	explore(r, scen{name: "selfdeps-n3-k1-upto2deps", n: 3, k: 1, perms: p3, archSet: both, maxDeps: 2, decoN: nCore, diag: true})
 	if r.Quick() {
 		explore(r, scen{name: "graphs-n2-k1-alldecorations", n: 2, k: 1, perms: p2, archSet: three, maxDeps: -1, decoN: nFull})
-		explore(r, scen{name: "graphs-n3-k1", n: 3, k: 1, perms: p3, archSet: both, maxDeps: -1, decoN: nCore})
-		explore(r, scen{name: "graphs-n3-k1-upto2deps-alldecorations", n: 3, k: 1, perms: p3, archSet: both, maxDeps: 2, decoN: nFull, layout: true}) // (the third architecture runs with all decorations in the n=1 / n=2 scenarios)
+		explore(r, scen{name: "graphs-n3-k1-upto4deps", n: 3, k: 1, perms: p3, archSet: both, maxDeps: 4, decoN: nCore}) // (all 42 875 n=3 graphs run at k=0 in selfdeps-n3-k0; thorough: k=2 on all)
+		explore(r, scen{name: "graphs-n3-k1-upto2deps-alldecorations", n: 3, k: 1, perms: p3, archSet: three, maxDeps: 2, decoN: nFull, layout: true, oneBinary: true}) // (the third architecture runs with all decorations in the n=1 / n=2 scenarios)
 		explore(r, scen{name: "graphs-n3-k2-upto2deps", n: 3, k: 2, perms: p3, archSet: both, maxDeps: 2, decoN: nBasic})
 		// field load: how many relations each field holds and which fields are in use at once
 		explore(r, scen{name: "fieldload-n3-k2", n: 3, k: 2, perms: p3, archSet: both, maxDeps: -1, decoN: nBasic, layout: true, oneBinary: true, onlyLay: true})
